@@ -25,7 +25,7 @@ def run(chk):
     if not ok:
         chk.fail("build", {"theorem": "harness/scen/gp.c does not compile against /repo", "lean_error": log[-2000:]}, nofail=True)
         return
-    n = 30 if chk.tier == "quick" else 500
+    n = 24 if chk.tier == "quick" else 500
     fails = gp_common.suite(chk, n, "liveness", OWN, rops=40, uops=3)
     if not fails:
         fails = gp_common.sweep(chk, OWN, wide=(chk.tier == "thorough"))
